@@ -32,7 +32,9 @@ TAct ==
     \/ Is("poll") /\ Poll(E.c) /\ last'.res = E.res /\ last'.lp = E.lp /\ last'.pp = E.pp
     \/ Is("cancel") /\ Cancel(E.c)
     \/ Is("accept") /\ Accept /\ last'.pp = E.pp /\ last'.lp = E.lp
-    \/ Is("write") /\ Write(<<E.p, E.side>>, E.data) /\ last'.res = E.res /\ last'.n = E.n
+    \* write_vectored on the current shim is AsyncWrite's default: the first non-empty slice only
+    \/ Is("write") /\ Write(<<E.p, E.side>>, IF "first" \in DOMAIN E THEN E.first ELSE E.data)
+                   /\ last'.res = E.res /\ last'.n = E.n
     \/ Is("read") /\ Read(<<E.p, E.side>>, E.n) /\ last'.res = E.res /\ last'.bytes = E.bytes
     \/ Is("shutdown") /\ Shutdown(<<E.p, E.side>>) /\ last'.res = E.res
     \/ Is("close") /\ Close(<<E.p, E.side>>)
